@@ -1,7 +1,7 @@
 """Texts for MANIFEST.json (kept next to props.py so the two stay consistent)."""
 
 ENGINES = [
-    {"name": "e1-vsched", "path": "/verif/engine/vsched", "serves_properties": ["C01", "C06", "C13", "C15", "C17", "C20"],
+    {"name": "e1-vsched", "path": "/verif/engine/vsched", "serves_properties": ["C01", "C06", "C07", "C13", "C15", "C17", "C20"],
      "kind_free_text": "controlled cooperative scheduler + AST instrumenter for lib/go; stateless DFS over choice sequences with deviation bounding and happens-before state-key pruning; explores the real code, no model"},
 ]
 
@@ -34,5 +34,9 @@ CHECKS["C17"] = dict(engine="e1-vsched", design_ref="DESIGN.md §4 C17", techniq
 CHECKS["C20"] = dict(engine="e1-vsched", design_ref="DESIGN.md §4 C20", technique="stateless model checking of the implementation over a broker model (deviation-bounded DFS, Stop at every stream position)",
     text="The real fNatsServer (Serve, Stop, handler, worker, drainNatsMessages) over fakenats with a counting processor: worker count 1-2 x queue length 0-2 x burst 2-3 x Stop at every position of the request stream, a racing second publisher, a request published after Stop returned; all schedules of publisher, broker dispatcher, drainer, workers, Serve and Stop to the bound. Oracle: requests routed before Stop was called are processed exactly once and replied before Serve returns; nothing published after Stop returned is processed; nothing is processed or replied twice; Stop and Serve return; no panic.",
     note=E1_NOTE + " fakenats is a hand-written model of nats.go v1.33.1 (dispatch, Drain, Flush, Barrier) bound to the source by reading, see its header comment.")
+
+CHECKS["C07"] = dict(engine="e1-vsched", design_ref="DESIGN.md §4 C07", technique="stateless model checking of the implementation over broker models (all message sequences x unsubscribe positions x schedules)",
+    text="The real NATS and STOMP subscriber and publisher transports over fakenats / fakestomp: every length-3 message sequence over {valid, foreign topic, 0-byte, 3-byte, bad header block, bad version}, Unsubscribe at every position and racing in its own thread, worker counts 1-2; all schedules of publisher, broker dispatcher, workers / processMessages, ack goroutines and unsubscriber to the bound. Reference model = list: only valid messages of the subscribed topic are delivered, at most once, in publish order for one worker, with unchanged payload and headers; all of them when nobody unsubscribes (so a bad message cannot kill the subscriber); none published after Unsubscribe returned; no panic.",
+    note=E1_NOTE + " The generated recv<Op> layer (op-name check, payload decoding) is not part of this harness; a hand-written callback that parses the frame with the reference parser stands in for it.")
 
 NOT_APPLICABLE = {}
